@@ -223,8 +223,13 @@ def check_metadata_single_form(ck, R):
             continue
         e = safe_expand(fa, c.args[0], c)
         inner = [x for x in ast.walk(e) if isinstance(x, ast.Call) and A.call_attr(x) == "_get_metadata_key"]
-        if any(len(x.args) >= 3 and isinstance(x.args[2], ast.UnaryOp) and isinstance(x.args[2].op, ast.Not) and A.norm(x.args[2].operand) == "stored_with_data" for x in inner):
-            ok = True
+        mkf = ck.repo.try_func(MDS + "._get_metadata_key")
+        mkp = mkf.params if mkf is not None else ["fn_with_arg_hash", "key", "stored_with_data"]
+        for x in inner:
+            form = _bind(x, mkp).get(mkp[-1])
+            # the other form: the negation of the flag this write was asked for
+            if isinstance(form, ast.UnaryOp) and isinstance(form.op, ast.Not) and A.norm(form.operand) == "stored_with_data":
+                ok = True
     ck.ob(R, fa.key(None, "other-form-removed"), ok, "writing one form of a metadata key removes the other form" if ok else
           "write_metadata does not remove the key's other form (plain file / with-data marker): write_metadata(k, v1) followed by "
           "write_metadata(k, v2, store_with_content_key=...) reads back v1 on the filesystem backend, v2 on the memory backend", fa.where())
@@ -310,7 +315,8 @@ def check_forget_scope(ck, cm: CacheModel):
     dels = f1.some(f1.calls("delete_all_versions"), "delete_all_versions call")
     for c in dels:
         deps = f1.deps(c.args[0]) if c.args else set()
-        ok = "call:_get_function_path" in deps and "param:fn_reference" in deps and len(c.args) > 1 and A.norm(c.args[1]) == "True"
+        rec_ = A.arg_or_kw(c, 1, "recursive")
+        ok = "call:_get_function_path" in deps and "param:fn_reference" in deps and rec_ is not None and _xt(f1, rec_, c) == "True"
         ck.ob(R, f1.key(c), ok, "deletes exactly the function's directory, recursively" if ok else
               "forget_function does not delete exactly the directory returned by _get_function_path", f1.where(c))
     f2 = FA(ck, MDS + ".forget_call")
@@ -353,13 +359,17 @@ def check_forget_scope(ck, cm: CacheModel):
     dl = f2.some(f2.calls("delete_all_versions"), "delete_all_versions call")
     for c in dl:
         loop = f2.enclosing(c, ast.For)
-        ok = loop is not None and lk in list(ast.walk(loop.iter)) and isinstance(loop.target, ast.Name) and c.args \
-            and A.norm(c.args[0]) == loop.target.id and len(c.args) > 1 and A.norm(c.args[1]) == "False"
+        rec_ = A.arg_or_kw(c, 1, "recursive")
+        key_ = A.arg_or_kw(c, 0, "key")
+        # the loop runs over what the selection listed (directly or through a temporary) and deletes each listed key
+        ok = loop is not None and (lk in list(ast.walk(loop.iter)) or "call:list_keys_nonversioned" in f2.deps(loop.iter)) and isinstance(loop.target, ast.Name) \
+            and key_ is not None and A.norm(key_) == loop.target.id and rec_ is not None and _xt(f2, rec_, c) == "False"
         ck.ob(R, f2.key(c), ok, "each selected key is deleted, non-recursively" if ok else
               "forget_call does not delete exactly the selected keys (non-recursively)", f2.where(c))
     f3 = FA(ck, MDS + ".forget_everything")
     de = f3.some(f3.calls("delete_all_versions"), "delete_all_versions call")
-    ok = any(len(c.args) > 1 and A.norm(c.args[1]) == "True" and A.strings_in(c.args[0]) == [""] for c in de)
+    ok = any(A.arg_or_kw(c, 1, "recursive") is not None and _xt(f3, A.arg_or_kw(c, 1, "recursive"), c) == "True" and c.args
+             and A.strings_in(safe_expand(f3, c.args[0], c)) == [""] for c in de)
     ck.ob(R, f3.key(None), ok, "forget_everything deletes the root recursively" if ok else
           "forget_everything does not delete the whole metadata root", f3.where())
     # (c) backend base mirrors into cache and metadata source
@@ -405,7 +415,8 @@ def check_forget_scope(ck, cm: CacheModel):
           "forget_everything does not clear all of %s" % (tables,), fe.where())
     fF = FA(ck, MEMBACK + ".forget_function")
     per_call = [c for c in fF.calls("forget_call") if A.dotted(A.call_recv(c)) == "self"]
-    okF = bool(per_call) and any(isinstance(fF.enclosing(c, ast.For), ast.For) and "list_mementos" in A.norm(fF.enclosing(c, ast.For).iter) for c in per_call)
+    okF = bool(per_call) and any(isinstance(fF.enclosing(c, ast.For), ast.For) and ("list_mementos" in A.norm(fF.enclosing(c, ast.For).iter)
+                                                                                    or "call:list_mementos" in fF.deps(fF.enclosing(c, ast.For).iter)) for c in per_call)
     ck.ob(R, fF.key(None, "per-call"), okF, "forget_function forgets each memento of exactly this function" if okF else
           "forget_function does not iterate this function's mementos through forget_call", fF.where())
     # custom metadata (and results) are keyed per call and can exist for calls that have no memento: they go with the
@@ -736,11 +747,13 @@ def check_path_scheme(ck):
     suffix = sufs.pop()
     lm = FA(ck, MDS + ".list_mementos")
     lk = lm.one(lm.calls("list_keys_nonversioned"), "list_keys_nonversioned call")
-    ew = A.kwarg(lk, "endswith")
-    ok = ew is not None and A.const_str(ew) == suffix
+    lkp = ck.repo.try_func("storage_base.DataSource.list_keys_nonversioned")
+    lk_params = lkp.params if lkp is not None else ["self", "directory", "file_prefix", "recursive", "limit", "endswith"]
+    ew = _bind(lk, lk_params).get("endswith")
+    ok = ew is not None and A.const_str(safe_expand(lm, ew, lk)) == suffix
     ck.ob(R, lm.key(lk, "suffix"), ok, "listing filters on the writer's suffix %r" % suffix if ok else
           "list_mementos filters on %s but mementos are written with suffix %r" % (A.norm(ew), suffix), lm.where(lk))
-    d = A.kwarg(lk, "directory")
+    d = _bind(lk, lk_params).get("directory")
     okd = d is not None and "call:_get_function_path" in lm.deps(d)
     ck.ob(R, lm.key(lk, "directory"), okd, "listing scans exactly the function's directory" if okd else
           "list_mementos does not scan the directory returned by _get_function_path", lm.where(lk))
@@ -763,52 +776,36 @@ def check_path_scheme(ck):
           "function paths are no longer built under the metadata prefix that list_functions scans", gf.where())
     # filesystem data source: .link suffix, .versions directory, escape/unquote
     lp = FA(ck, FSDS + "._get_non_versioned_link_path")
-    lits = [s for s in A.strings_in(lp.one(lp.returns(), "return").value)]
+    lpr = lp.one([r for r in lp.returns() if r.value is not None], "return")
+    lits = [s for s in A.strings_in(safe_expand(lp, lpr.value, lpr))]
     ck.need(len(lits) == 1, "link path builder: cannot identify the link suffix")
     link = lits[0]
     ls = FA(ck, FSDS + ".list_keys_nonversioned")
-    strips = []
-    for fn in [ls.fi] + list(ls.fi.nested.values()):
-        for n in A.walk_body(fn.node):
-            ew = [a for a in A.conj_atoms(n.test) if isinstance(a, ast.Call) and A.call_attr(a) == "endswith" and a.args] if isinstance(n, ast.If) else []
-            if ew:
-                lit = A.const_str(ew[0].args[0])
-                if lit is not None and lit.startswith("."):
-                    sl = [x for x in ast.walk(n) if isinstance(x, ast.Subscript) and isinstance(x.slice, ast.Slice)]
-                    strips.append((fn, n, lit, sl))
+    strips = _suffix_strip_sites(ck, ls)
     ck.need(strips, "list_keys_nonversioned: no link-suffix strip site found")
-    for (fn, n, lit, sl) in strips:
-        cut = None
-        for x in sl:
-            up = x.slice.upper
-            if isinstance(up, ast.UnaryOp) and isinstance(up.op, ast.USub) and isinstance(up.operand, ast.Constant):
-                cut = up.operand.value
+    for (f_, st, n, lit, cut, conds) in strips:
+        fn = f_.fi
         ok = lit == link and cut == len(link)
         ck.ob(R, "%s::%s" % (fn.qual, A.head(n)), ok, "listing strips exactly the %r suffix" % link if ok else
               "listing strips %r/%s characters but links are written with suffix %r" % (lit, cut, link), A.loc(fn, n))
         # only FILES are links: a directory whose name happens to end in the link suffix (a function
         # version such as "1.link") is a key component and must be listed unaltered
-        parents = {}
-        for x in ast.walk(fn.node):
-            for ch in ast.iter_child_nodes(x):
-                parents[ch] = x
         files_only = False
-        cond_txt = []
-        x = n
-        while x in parents:
-            x = parents[x]
-            if isinstance(x, ast.If):
-                cond_txt.append(A.norm(x.test))
+        x = st
+        while x is not None:
+            x = f_.pm.get(x)
             if isinstance(x, ast.For) and isinstance(x.iter, ast.Name):
                 # `for filename in filenames` under `for dirpath, dirnames, filenames in os.walk(..)`
                 y = x
-                while y in parents:
-                    y = parents[y]
+                while y is not None:
+                    y = f_.pm.get(y)
                     if isinstance(y, ast.For) and isinstance(y.iter, ast.Call) and A.call_attr(y.iter) == "walk" \
                             and isinstance(y.target, ast.Tuple) and len(y.target.elts) == 3 and A.norm(y.target.elts[2]) == x.iter.id:
                         files_only = True
-        cond_txt.append(A.norm(n.test))
-        guarded = any("is_file()" in t or "is_dir()" in t or "isfile(" in t or "isdir(" in t for t in cond_txt)
+        # every way to the strip has established "not a directory" / "a file" (either polarity of the test, guard clause or nesting)
+        def is_file_lit(t, p):
+            return (not p and ("is_dir()" in t or "isdir(" in t)) or (p and ("is_file()" in t or "isfile(" in t))
+        guarded = conds is not None and bool(conds) and all(any(is_file_lit(t, p) for (t, p) in c_) for c_ in conds)
         ck.ob(R, "%s::%s::files-only" % (fn.qual, A.head(n)), files_only or guarded,
               "the %r suffix is stripped from file names only" % link if files_only or guarded else
               "the %r suffix is stripped from every directory entry, sub-directories included: a function whose version ends in %r "
@@ -832,16 +829,89 @@ def check_path_scheme(ck):
     ck.ob(R, pv.key(None, "versions-dir"), okv, "object paths and the delete scan agree on %s" % sorted(lits_pv) if okv else
           "version directory name differs between writer %s and deleter %s" % (sorted(lits_pv), sorted(lits_vd)), pv.where())
     vlit = sorted(lits_pv)[0] if lits_pv else ".versions"
+    # every entry a walker hands out was reached past a test that excludes the versions directory (guard clause with `continue`,
+    # nested if, either polarity); text comparison only where the walker has no recognisable emit statement
+    units = list(ls.fi.nested.values()) or [ls.fi]
     skip_ok = 0
-    for fn in list(ls.fi.nested.values()):
-        txt = A.norm(fn.node)
-        if ("== %r" % vlit) in txt or ("%s{}" % vlit) in txt:
+    for fn in units:
+        f_ = ls if fn is ls.fi else FA(ck, fn)
+        emits = [st for st in f_.stmts(ast.Expr) if isinstance(st.value, (ast.Yield, ast.YieldFrom))
+                 or (isinstance(st.value, ast.Call) and A.call_attr(st.value) == "append" and any(isinstance(x, ast.Call) and A.call_attr(x) == "DataSourceKey" for x in ast.walk(st.value)))]
+        decided = None
+        if emits:
+            decided = True
+            for st in emits:
+                try:
+                    conds = f_.conditions(st) if f_.nodes(st) else None
+                except AnalysisError:
+                    conds = None
+                if conds is None:
+                    decided = None
+                    break
+                if not (conds and all(any((not p_) and vlit in t_ for (t_, p_) in c_) for c_ in conds)):
+                    decided = False
+        if decided is None:
+            txt = A.norm(fn.node)
+            decided = ("== %r" % vlit) in txt or ("%s{}" % vlit) in txt
+        if decided:
             skip_ok += 1
-    ck.ob(R, ls.key(None, "skip-versions"), skip_ok == len(ls.fi.nested) and skip_ok > 0,
-          "listings skip the version directories" if skip_ok == len(ls.fi.nested) and skip_ok > 0 else
+    ck.ob(R, ls.key(None, "skip-versions"), skip_ok == len(units) and skip_ok > 0,
+          "listings skip the version directories" if skip_ok == len(units) and skip_ok > 0 else
           "a listing walks into %r: version objects appear as keys" % vlit, ls.where())
     check_escape_inverse(ck, R)
     check_strip_is_not_prefix_removal(ck, R)
+
+
+def _suffix_strip_sites(ck, ls: FA):
+    """Statements of the listing (and its nested walkers) that cut a literal suffix off a name, by what they do:
+    `x = x[:-K]` / `x[0:-K]` / `x[:-len('<lit>')]` reached only when `<...>.endswith('<lit>')` holds, or
+    `x = x.removesuffix('<lit>')`.  -> [(FA, statement, keyed node, literal, characters cut, path conditions)]"""
+    import re
+    out = []
+    for fn in [ls.fi] + list(ls.fi.nested.values()):
+        f_ = ls if fn is ls.fi else FA(ck, fn)
+        for st in f_.stmts(ast.Assign):
+            v = st.value
+            cut = lit = None
+            if isinstance(v, ast.Subscript) and isinstance(v.slice, ast.Slice) and v.slice.step is None \
+                    and (v.slice.lower is None or (isinstance(v.slice.lower, ast.Constant) and v.slice.lower.value == 0)):
+                up = v.slice.upper
+                if isinstance(up, ast.UnaryOp) and isinstance(up.op, ast.USub):
+                    o = up.operand
+                    if isinstance(o, ast.Constant) and isinstance(o.value, int):
+                        cut = o.value
+                    elif isinstance(o, ast.Call) and isinstance(o.func, ast.Name) and o.func.id == "len" and len(o.args) == 1:
+                        la = safe_expand(f_, o.args[0], st)
+                        if A.const_str(la) is not None:
+                            cut = len(A.const_str(la))
+            elif isinstance(v, ast.Call) and A.call_attr(v) == "removesuffix" and len(v.args) == 1:
+                la = safe_expand(f_, v.args[0], st)
+                if A.const_str(la) is not None:
+                    lit, cut = A.const_str(la), len(A.const_str(la))
+            if cut is None:
+                continue
+            try:
+                conds = f_.conditions(st) if f_.nodes(st) else None
+            except AnalysisError:
+                conds = None
+            if lit is None:
+                # the suffix the cut is conditioned on
+                found = set()
+                for c_ in (conds or []):
+                    ms = [re.search(r"\.endswith\('(\.[^']*)'\)$", t) for (t, p) in c_ if p]
+                    found.add(tuple(sorted({m.group(1) for m in ms if m})))
+                if len(found) != 1 or len(next(iter(found))) != 1:
+                    continue
+                lit = next(iter(found))[0]
+            n = st
+            x = st
+            while x is not None:
+                x = f_.pm.get(x)
+                if isinstance(x, ast.If) and any(isinstance(c_, ast.Call) and A.call_attr(c_) == "endswith" for c_ in ast.walk(x.test)):
+                    n = x
+                    break
+            out.append((f_, st, n, lit, cut, conds))
+    return out
 
 
 def check_escape_inverse(ck, R):
@@ -910,13 +980,39 @@ def check_listing_filters(ck, R):
                   "min(n, live) entries when other files (custom metadata) share the directory" % (name, flt), f.where())
     rets = ls.returns()
     post = []
-    ent = {r.value.args[0].id for r in rets if isinstance(r.value, ast.Call) and A.call_attr(r.value) == "sorted" and r.value.args and isinstance(r.value.args[0], ast.Name)}
-    for st in ls.stmts(ast.Assign):
-        if any(isinstance(t, ast.Name) and t.id in ent for t in st.targets):
-            v = st.value
-            if not (isinstance(v, ast.Call) and A.call_attr(v) == "list" and v.args and isinstance(v.args[0], ast.Call) and A.call_attr(v.args[0]) in ls.fi.nested):
-                post.append(st)
-    okp = not post and all(r.value is None or A.norm(r.value) == "[]" or (isinstance(r.value, ast.Call) and A.call_attr(r.value) == "sorted" and len(r.value.args) == 1 and A.norm(r.value.args[0]) in ent) for r in rets) and len(ent) == 1
+
+    def walk_output(e, at_nodes, depth=0):
+        """is `e` the complete output of a walker: walker() / list(walker()) / a local every definition of which is one"""
+        if isinstance(e, ast.List) and not e.elts:
+            return True
+        if isinstance(e, ast.Call) and isinstance(e.func, ast.Name) and e.func.id in ("list", "tuple") and len(e.args) == 1 and not e.keywords:
+            return walk_output(e.args[0], at_nodes, depth)
+        if isinstance(e, ast.Call) and A.call_attr(e) in ls.fi.nested and isinstance(e.func, ast.Name):
+            return True
+        if isinstance(e, ast.Name) and depth < 4:
+            ds = {}
+            for i in at_nodes:
+                for d in ls.df.reaching(i, e.id):
+                    ds[d.node] = d
+            if not ds:
+                return False
+            for d in ds.values():
+                if d.kind != "assign" or d.value is None or not walk_output(d.value, [d.node], depth + 1):
+                    post.append(d.stmt if d.stmt is not None else e)
+                    return False
+            return True
+        return False
+
+    okp = bool(rets)
+    for r in rets:
+        v = r.value
+        if v is None or (isinstance(v, ast.List) and not v.elts):
+            continue
+        if not ls.nodes(r):
+            continue
+        if not (isinstance(v, ast.Call) and A.call_attr(v) == "sorted" and isinstance(v.func, ast.Name) and len(v.args) == 1 and walk_output(v.args[0], ls.nodes(r))):
+            okp = False
+    post = [x for x in post if isinstance(x, ast.AST)]
     ck.ob(R, ls.key(None, "no-post-filter"), okp, "the walk result is only sorted" if okp else
           "the listing is narrowed after the walk (`%s`): the limit was already spent on entries that are filtered out afterwards" % A.short(post[0], 60) if post else
           "list_keys_nonversioned does not return sorted(entries)", ls.where(post[0] if post else None))
